@@ -563,6 +563,19 @@ theorem countRuleRuns_last (n : Int) (pre : List PSnap) (s : PSnap) (isLast : Bo
 
 /-! ## the documented (periods) form -/
 
+/-- T1: the key functions of the current source compute the documented periods -/
+theorem bucketKey_eq_periodKey (k : Kind) (c : Civil) (n : Nat) : bucketKey k c n = periodKey k c n := by
+  cases k <;>
+  simp [bucketKey, periodKey, Restic.Gen.data_ymdh_year, Restic.Gen.data_ymdh_month, Restic.Gen.data_ymdh_day,
+    Restic.Gen.data_ymdh_hour, Restic.Gen.data_ymd_year, Restic.Gen.data_ymd_month, Restic.Gen.data_ymd_day,
+    Restic.Gen.data_yw_year, Restic.Gen.data_yw_week, Restic.Gen.data_ym_year, Restic.Gen.data_ym_month,
+    Restic.Gen.data_y_year]
+
+theorem pkeysOf_eq (k : Kind) (nr : Nat) (l : List PSnap) : pkeysOf k nr l = keysOf k nr l := by
+  induction l generalizing nr with
+  | nil => rfl
+  | cons s rest ih => simp [pkeysOf, keysOf, ih, bucketKey_eq_periodKey]
+
 theorem pairwise_prefix_snoc {α} (r : α → α → Prop) (a : List α) (x : α) (b : List α)
     (h : (a ++ x :: b).Pairwise r) : (a ++ [x]).Pairwise r := by
   exact List.Pairwise.sublist (List.Sublist.append_left (List.Sublist.cons₂ x (List.nil_sublist b)) a) h
@@ -578,7 +591,7 @@ theorem countRule_periods (k : Kind) (hk : k ≠ .last) (n : Int) (pre : List PS
     (hp : (keysOf k 0 pre ++ [bucketKey k s.civ pre.length]).Pairwise (· ≥ ·))
     (hn : (-1 : Int) ∉ keysOf k 0 pre ++ [bucketKey k s.civ pre.length]) :
     countRuleRuns k n pre s isLast = countRulePeriods k n pre s isLast := by
-  simp only [countRuleRuns, countRulePeriods]
+  simp only [countRuleRuns, countRulePeriods, pkeysOf_eq, ← bucketKey_eq_periodKey]
   have hp1 : (keysOf k 0 pre).Pairwise (· ≥ ·) := (List.pairwise_append.mp hp).1
   have hn1 : (-1 : Int) ∉ keysOf k 0 pre := fun h => hn (List.mem_append_left _ h)
   have hn2 : bucketKey k s.civ pre.length ≠ -1 := fun h => hn (by simp [h])
@@ -596,7 +609,7 @@ theorem withinRule_periods (ctx : Ctx) (k : Kind) (pre : List PSnap) (s : PSnap)
     (hp : (keysOf k 0 pre ++ [bucketKey k s.civ pre.length]).Pairwise (· ≥ ·))
     (hn : (-1 : Int) ∉ keysOf k 0 pre ++ [bucketKey k s.civ pre.length]) :
     withinRuleRuns ctx k pre s isLast = withinRulePeriods ctx k pre s isLast := by
-  simp only [withinRuleRuns, withinRulePeriods]
+  simp only [withinRuleRuns, withinRulePeriods, pkeysOf_eq, ← bucketKey_eq_periodKey]
   have hn2 : bucketKey k s.civ pre.length ≠ -1 := fun h => hn (by simp [h])
   have := ne_lastOr_iff _ _ hp hn2
   congr 1
@@ -637,7 +650,7 @@ theorem keptRuns_eq_keptPeriods (ctx : Ctx) (pre : List PSnap) (s : PSnap) (isLa
 theorem regularAt_of_keysRegular (l pre rest : List PSnap) (s : PSnap) (hl : l = pre ++ s :: rest)
     (h : keysRegular l = true) : RegularAt pre s := by
   intro k hk
-  simp only [keysRegular, List.all_eq_true, Bool.and_eq_true, Bool.not_eq_true',
+  simp only [keysRegular, pkeysOf_eq, List.all_eq_true, Bool.and_eq_true, Bool.not_eq_true',
     Bool.not_eq_eq_eq_not, Bool.not_true] at h
   have hk' := h k hk
   have hsplit : keysOf k 0 l = keysOf k 0 pre ++ bucketKey k s.civ pre.length :: keysOf k (pre.length + 1) rest := by
@@ -1158,7 +1171,7 @@ theorem keep_iff_periods (sub : Int → Dur → Int) (now : Int) (l : List PSnap
 theorem keysRegular_of (l : List PSnap)
     (hanti : ∀ k ∈ withinKinds, antitone (keysOf k 0 l) = true)
     (hciv : ∀ s ∈ l, CivilOK s.civ ∧ 0 ≤ s.civ.year ∧ 0 ≤ s.civ.isoYear) : keysRegular l = true := by
-  simp only [keysRegular, List.all_eq_true, Bool.and_eq_true, Bool.not_eq_true']
+  simp only [keysRegular, pkeysOf_eq, List.all_eq_true, Bool.and_eq_true, Bool.not_eq_true']
   intro k hk
   refine ⟨hanti k hk, ?_⟩
   have hne : k ≠ .last := by intro e; subst e; simp [withinKinds] at hk
